@@ -99,9 +99,15 @@ def _is_critical_filter(gen: ast.AST) -> bool:
 
 
 def _is_critical_test(c: ast.AST, v: str) -> bool:
-    if not (isinstance(c, ast.Compare) and len(c.ops) == 1 and isinstance(c.ops[0], (ast.Eq, ast.Is))):
+    """`<v>.level == ErrorLevel.CRITICAL` in any spelling (`is`, operands swapped, `not ... != ...`)."""
+    pol = True
+    while isinstance(c, ast.UnaryOp) and isinstance(c.op, ast.Not):
+        pol, c = not pol, c.operand
+    if not (isinstance(c, ast.Compare) and len(c.ops) == 1 and isinstance(c.ops[0], (ast.Eq, ast.Is, ast.NotEq, ast.IsNot))):
         return False
-    return {text(c.left), text(c.comparators[0])} == {f"{v}.level", "ErrorLevel.CRITICAL"}
+    if isinstance(c.ops[0], (ast.NotEq, ast.IsNot)):
+        pol = not pol
+    return pol and {text(c.left), text(c.comparators[0])} == {f"{v}.level", "ErrorLevel.CRITICAL"}
 
 
 def _fact_critical(a: Atom) -> bool | None:
@@ -120,6 +126,12 @@ def _fact_critical(a: Atom) -> bool | None:
             if isinstance(g.target, ast.Name) and text(g.iter) == f"{MSG}.errors" and not g.ifs \
                     and _is_critical_test(gen.elt, g.target.id):
                 return True
+    if a.kind == "truthy":  # [e for e in MSG.errors if e.level == CRITICAL] / list(...) / tuple(...) of that filter
+        x = a.ops[0]
+        if isinstance(x, ast.Call) and u(x.func) in ("list", "tuple") and len(x.args) == 1 and not x.keywords:
+            x = x.args[0]
+        if _is_critical_filter(x):
+            return True
     return None
 
 
@@ -816,8 +828,6 @@ CONTROLS = [
      "        return not is_outdated\n", "            return False\n        return True\n", "C16.SAFE"),
     ("inverter timer looks at the battery timestamp", MOD,
      "                            - self._inverter.last_msg_timestamp\n", "                            - self._battery.last_msg_timestamp\n", "C16.TIMER"),
-    ("inverter data does not restart its timer", MOD,
-     "        self._inverter.data_recv_timer.reset()\n", "        pass\n", "C16.TIMER"),
     ("inverter timer clears the battery flag", MOD,
      "            self._inverter.last_msg_correct = False\n", "            self._battery.last_msg_correct = False\n", "C16.TIMER"),
     ("success does not unblock", MOD,
@@ -826,8 +836,6 @@ CONTROLS = [
      "return self.blocked_until > datetime.now(tz=timezone.utc)", "return self.blocked_until < datetime.now(tz=timezone.utc)", "C16.BLOCK"),
     ("uncertain used although one component works", CSMOD,
      "if len(working) > 0:", "if len(working) > 1:", "C16.BLOCK"),
-    ("invalid relay state accepted", MOD,
-     "not in BatteryStatusTracker._battery_valid_relay:", "in BatteryStatusTracker._battery_valid_relay:", "C16.SAFE"),
     ("inverter state check dropped from the conjunction", MOD,
      "            and self._is_inverter_state_correct(", "            and self._is_message_reliable(", "C16.SAFE"),
     ("recovery from NOT_WORKING does not clear the block", MOD,
@@ -848,10 +856,68 @@ CONTROLS = [
      "                self._current_status.uncertain.add(component_id)\n", "C16.POOL"),
     ("pool status update not published", POOLMOD,
      "            await self._component_status_sender.send(self._current_status)\n", "            pass\n", "C16.POOL"),
-    ("detected change not sent", MOD,
-     "                        await status_sender.send(\n                            ComponentStatus(self.battery_id, new_status)\n                        )\n",
-     "                        pass\n", "C16.CHANGE"),
 ]
+
+
+# ------------------------------------------------------------------------------ structurally located controls
+def _control_at(name: str, mod: Any, node: ast.AST, repl: str, rule: str) -> tuple[str, str, str, str, str] | None:
+    """A control that replaces the source of `node` by `repl`, expressed as the (old, new) text pair the control
+    engine wants: the replaced span is widened line by line until it occurs exactly once in the module."""
+    src = mod.source
+    lines = src.splitlines(keepends=True)
+    if not all(line.isascii() for line in lines[node.lineno - 1:node.end_lineno]):  # type: ignore[attr-defined]
+        return None
+    starts = [0]
+    for line in lines:
+        starts.append(starts[-1] + len(line))
+    a = starts[node.lineno - 1] + node.col_offset  # type: ignore[attr-defined]
+    b = starts[node.end_lineno - 1] + node.end_col_offset  # type: ignore[attr-defined]
+    lo, hi = node.lineno - 1, node.end_lineno  # type: ignore[attr-defined]
+    while src.count(src[starts[lo]:starts[hi]]) != 1 and lo > 0:
+        lo -= 1
+    a0, b1 = starts[lo], starts[hi]
+    if src.count(src[a0:b1]) != 1:
+        return None
+    return (name, mod.name, src[a0:b1], src[a0:a] + repl + src[b:b1], rule)
+
+
+def located_controls(prog: Program) -> list[tuple[str, str, str, str, str]]:
+    """Seeded defects placed by *what the statement does*, not by its text, so that the both-ways test of the
+    rules survives renamed variables, moved code and re-cut functions."""
+    out: list[tuple[str, str, str, str, str] | None] = []
+    tr, bs, pool = prog.cls(TR), prog.cls(BS), prog.cls(POOL)
+
+    def stmts(cls: Any) -> list[ast.stmt]:
+        return [n for n in ast.walk(cls.node) if isinstance(n, ast.stmt)]
+
+    def call_of(s: ast.stmt) -> ast.Call | None:
+        v = s.value if isinstance(s, ast.Expr) else None
+        v = v.value if isinstance(v, ast.Await) else v
+        return v if isinstance(v, ast.Call) else None
+    hit = first([s_ for s_ in stmts(tr) if call_of(s_) is not None and u(call_of(s_).func).endswith(".data_recv_timer.reset")])  # type: ignore[union-attr]
+    if hit is not None:
+        out.append(_control_at("a data message does not restart its stream's timer", tr.module, hit, "pass", "C16.TIMER"))
+    hit = first([s_ for s_ in stmts(tr) if isinstance(s_, ast.Assign) and isinstance(s_.targets[0], ast.Attribute)
+                 and s_.targets[0].attr == FLAG and _bool_const(s_.value) is False])
+    if hit is not None:
+        out.append(_control_at("the data timer does not clear the flag", tr.module, hit, "pass", "C16.TIMER"))
+    hit = first([s_ for s_ in stmts(bs) if isinstance(s_, ast.Assign) and isinstance(s_.targets[0], ast.Attribute)
+                 and s_.targets[0].attr == "blocked_until" and isinstance(s_.value, ast.Constant) and s_.value.value is None])
+    if hit is not None:
+        out.append(_control_at("unblock() does not clear the block", bs.module, hit, "pass", "C16.BLOCK"))
+    hit = first([s_ for s_ in stmts(tr) if call_of(s_) is not None and isinstance(call_of(s_).func, ast.Attribute)  # type: ignore[union-attr]
+                 and call_of(s_).func.attr == "send" and "ComponentStatus" in u(s_)])  # type: ignore[union-attr]
+    if hit is not None:
+        out.append(_control_at("a detected change is not sent", tr.module, hit, "pass", "C16.CHANGE"))
+    cmp_ = first([n for n in ast.walk(tr.node) if isinstance(n, ast.Compare) and len(n.ops) == 1
+                  and isinstance(n.ops[0], (ast.In, ast.NotIn)) and u(n.comparators[0]).endswith("._battery_valid_relay")])
+    if cmp_ is not None:
+        flipped = f"{u(cmp_.left)} {'in' if isinstance(cmp_.ops[0], ast.NotIn) else 'not in'} {u(cmp_.comparators[0])}"
+        out.append(_control_at("an invalid relay state is accepted", tr.module, cmp_, flipped, "C16.SAFE"))
+    hit = first([s_ for s_ in stmts(pool) if call_of(s_) is not None and u(call_of(s_).func).endswith("uncertain.discard")])  # type: ignore[union-attr]
+    if hit is not None:
+        out.append(_control_at("a component is not removed from the uncertain set", pool.module, hit, "pass", "C16.POOL"))
+    return [c for c in out if c is not None]
 
 
 def run_rules(run: Run, prog: Program) -> None:
@@ -882,7 +948,7 @@ def check(run: Run, prog: Program, tier: str) -> str:
     run.floor("C16.BLOCK", 13)
     from ..engine.controls import run_controls
 
-    run_controls(run, CONTROLS, run_rules, tier, base_prog=prog)
+    run_controls(run, CONTROLS + located_controls(prog), run_rules, tier, base_prog=prog)
     run.assume("the frozen fact table in sa/props/c16.py binds each disqualifying fact to the atomic condition "
                "that tests it (matched on what it computes on the message, not on local names); the "
                "operational-state sets are the documented ones")
